@@ -53,6 +53,34 @@ PROPS = {
         technique="Kani bounded harnesses vs real std trim_ascii* and reference; Verus loop invariants when present",
         assumptions=["two-sided trim_matches with an overlapping needle may remove the run from either end first; both orders are accepted"],
     ),
+    "C08": _p(
+        "Slice iterators behave like std's double-ended slice iterators",
+        kani=["c08"], verus=["c08"], level="proof",
+        level_text="Verus: one-step contracts (next/next_back/rev/copy/remainder, constructors, must-panic on size 0) of Windows, Chunks, RChunks, ChunksExact, RChunksExact, ArrayChunks and their Rev twins "
+                   "against std's step functions (restated from core::slice::iter), generic in T, every length and size; induction over steps gives every interleaving. "
+                   "Element iterators (iter/iter_copied) and the as_chunks pointer cast are Kani-only. Kani: lock-step walks against the real core::slice iterators, len <= 6 (thorough 8), u8 and ()",
+        technique="Verus one-step contracts on the extracted iterator methods + Kani lock-step bisimulation with the real std iterators (bounded)",
+        assumptions=["std's iterator step functions are restated as spec functions; the Kani lock-step harnesses tie them to the real iterators (bounded)"],
+    ),
+    "C12": _p(
+        "Integer/bool parsing accepts std's language and returns the same value",
+        kani=["c12"], verus=["c12"], level="proof",
+        level_text="Verus: the 12 Parser::parse_<int> expansions, parse_bool, Parser::new/is_empty and the 13 primitive::parse_* whole-string wrappers proved against a digit-run specification "
+                   "(optional '-', longest run of ASCII digits, value fits the type, nothing consumed on failure, offsets advanced by exactly the consumed bytes) for every string; "
+                   "Kani compares with the real str::parse on all valid strings <= 4 bytes (8-bit types) and on MIN/MAX neighbourhoods",
+        technique="Verus loop invariants (digits_val/digits_len) on the extracted parse_integer! expansions + Kani differential harnesses vs str::parse",
+        assumptions=["Parser offsets are u32: start_offset + remainder length <= u32::MAX is a precondition (parser_inv)",
+                     "the digit-run specification is str::parse's language minus a leading '+' (Kani SPEC harnesses against the real str::parse, bounded)"],
+    ),
+    "C20": _p(
+        "Concatenation/join macros and CStr conversions equal their std counterparts",
+        kani=["c20"], verus=["c20", "c20b"], level="proof",
+        level_text="Verus: from_bytes_until_nul(_inner)/from_bytes_with_nul succeed exactly when a nul exists / the first nul is last and discharge CStr::from_bytes_with_nul_unchecked's precondition; "
+                   "slice concat kernels (concat_sum_lengths, concat_slices) equal <[&[T]]>::concat. String concat/join kernels, CStr->bytes/str pointer walks and constant macro instances: Kani (bounded)",
+        technique="Verus contracts on CStr constructors and slice-concat kernels; Kani bounded harnesses vs real CStr / concat / join",
+        unchecked=["string::from_iter! rides on the iterator DSL (C10, not applicable) and is not covered",
+                   "the macro glue (const LEN / const CONC evaluation) is rustc's const evaluation; a few constant instances are smoke-tested by Kani harnesses"],
+    ),
 }
 
 NOT_APPLICABLE = {
@@ -66,14 +94,11 @@ PENDING = {
     "C01": "check under construction (unsafe-site inventory + V preconditions)",
     "C06": "check under construction",
     "C07": "check under construction",
-    "C08": "check under construction",
     "C09": "check under construction",
     "C11": "check under construction",
-    "C12": "check under construction",
     "C13": "check under construction",
     "C14": "check under construction",
     "C15": "check under construction",
     "C16": "check under construction",
     "C19": "check under construction",
-    "C20": "check under construction",
 }
